@@ -553,6 +553,8 @@ class C06(Check):
 
     def execute(self, case):
         log = core.EventLog()
+        imgsim.fi()
+        imgsim.set_hash_salt(case.get('content') or case)
         data, info = F.build(case['content'])
         self.stats = stats = {'faults': {}, 'probes': {}, 'families': {},
                               'sim': {}, 'distinct': []}
